@@ -1060,7 +1060,7 @@ func (g *g) heredoc(n string) string {
 	h := &HD{Op: op, DelimText: delim}
 	var wordTxt string
 	var wparts []string
-	switch g.ch.Intn(6, "hd_quote") {
+	switch g.ch.Intn(7, "hd_quote") {
 	default:
 		wordTxt = delim
 		wparts = []string{skel.Lit(delim)}
@@ -1073,6 +1073,12 @@ func (g *g) heredoc(n string) string {
 		r := []rune(delim)
 		wordTxt = string(r[:1]) + `"` + string(r[1:]) + `"`
 		wparts = []string{skel.Lit(string(r[:1])), skel.Quote(`"`, []string{skel.Lit(string(r[1:]))})}
+		h.Quoted = true
+	case 6:
+		// empty quotes inside the word: still "some part was quoted"
+		r := []rune(delim)
+		wordTxt = string(r[:1]) + `""` + string(r[1:])
+		wparts = []string{skel.Lit(string(r[:1])), skel.Quote(`"`, nil), skel.Lit(string(r[1:]))}
 		h.Quoted = true
 	case 5:
 		r := []rune(delim)
